@@ -37,8 +37,10 @@ void *coap_realloc_type(coap_memory_tag_t type, void *p, size_t size) {
   unsigned char *q = malloc(ALLOC_CAP);  /* constant-size object; the old block has ALLOC_CAP bytes too */
   __CPROVER_assume(q != NULL);
   if (p) {
+#ifndef VH_REALLOC_NO_COPY       /* units that track no byte contents skip the copy loop: the new block has arbitrary contents */
     const unsigned char *pp = p;
     for (size_t i = 0; i < ALLOC_CAP; i++) if (i < size) q[i] = pp[i];
+#endif
     free(p);
   }
   return q;
